@@ -2,6 +2,7 @@ package main
 
 import (
 	"fmt"
+	"strconv"
 	"strings"
 
 	"aaverif/internal/plan"
@@ -227,9 +228,9 @@ func checkC15(e *Env) {
 			msg := string(unhex(r.Err.Msg))
 			named := false
 			for _, u := range x.unknown {
-				if strings.Contains(msg, u) {
+				if namesToken(msg, u) {
 					named = true
-				} else if nu, ok := e.NFKD1(u); ok && strings.Contains(msg, nu) {
+				} else if nu, ok := e.NFKD1(u); ok && namesToken(msg, nu) {
 					named = true
 				}
 			}
@@ -292,7 +293,7 @@ func checkC15(e *Env) {
 				continue // several defects at once
 			}
 			got := errClassOf(res[i].Err)
-			if got != want || (want == "other" && !strings.Contains(errText(res[i].Err), unknown)) {
+			if got != want || (want == "other" && !namesToken(errText(res[i].Err), unknown)) {
 				e.Violate(&Violation{What: fmt.Sprintf("after earlier calls in the same process CheckMnemonic reports error class %s (%s) for a %s sentence whose only defect calls for %s: %s", got, errText(res[i].Err), ref.Names[op.L], want, preview(op.Str())),
 					Ops: ops[:i+1], Expected: want, Observed: res[i], Detail: historyNote})
 				return
@@ -317,4 +318,19 @@ func checkC15(e *Env) {
 		"errors.Is evaluated in the child against the package's own exported sentinels",
 		"golden lists; reference decoder for classifying checksum-only defects",
 	})
+}
+
+// namesToken reports whether an error message names a token: verbatim, or in
+// one of Go's quoted renderings (%q, %+q, strconv.QuoteToGraphic) — a message is
+// free to escape control characters or invalid bytes of the token.
+func namesToken(msg, tok string) bool {
+	if strings.Contains(msg, tok) {
+		return true
+	}
+	for _, q := range []string{strconv.Quote(tok), strconv.QuoteToASCII(tok), strconv.QuoteToGraphic(tok)} {
+		if inner := q[1 : len(q)-1]; strings.Contains(msg, inner) {
+			return true
+		}
+	}
+	return false
 }
